@@ -90,6 +90,8 @@ func (u *memoryManagementUnit) getFromMemory(addrs []int32) []int8 {
 }
 
 func (u *memoryManagementUnit) fetchCacheLine(addr int32) []int8 {
+	// A cache line starts at a multiple of the line size
+	addr -= addr % l1DCacheLineSize
 	memory := make([]int8, 0, l1DCacheLineSize)
 	for i := 0; i < l1DCacheLineSize; i++ {
 		if int(addr)+i >= len(u.ctx.Memory) {
@@ -102,6 +104,7 @@ func (u *memoryManagementUnit) fetchCacheLine(addr int32) []int8 {
 }
 
 func (u *memoryManagementUnit) pushLineToL1D(addr comp.AlignedAddress, line []int8) {
+	addr -= addr % l1DCacheLineSize
 	evicted := u.l1d.PushLine(addr, line)
 	if len(evicted) == 0 {
 		return
